@@ -365,7 +365,7 @@ class G:
 
 
 def gen(rng, dim=None, depth=None, **opts):
-    """one architecture.  opts: cmax, k1d, k2d, dil, p_stride, bn, weights (production weights), T, HW, cin"""
+    """one architecture.  opts: cmax, k1d, k2d, dil, p_stride, bn, weights (production weights), T, HW, cin, p_dense_stem (opt-in)"""
     dim = dim or rng.choice([1, 2])
     g = G(rng, dim, opts)
     cin = opts.get('cin') or rng.randint(1, 4)
@@ -376,8 +376,17 @@ def gen(rng, dim=None, depth=None, **opts):
         hw = opts.get('HW') or rng.randint(5, 8)
         cur = g.add(k='in', shape=[cin, hw, hw])
     # the first block is always a plain convolution (so that something searchable consumes the input)
-    g.prod.append('stem')
-    cur = g.act(g.bn(g.conv(cur)))
+    if opts.get('p_dense_stem') and rng.random() < opts['p_dense_stem']:
+        # DenseNet-style stem (opt-in): the raw input is concatenated with a convolution of itself, so the network input (a
+        # fixed width) reaches two searchable layers along different paths (directly, and as an operand of the concatenation)
+        g.prod.append('dense-stem')
+        inp = cur
+        a = g.act(g.bn(g.same_shape_conv(inp), 0.3))
+        cur = g.add(k='cat', src=[inp, a] if rng.random() < 0.6 else [a, inp], dim=1)
+        cur = g.act(g.bn(g.conv(cur)))
+    else:
+        g.prod.append('stem')
+        cur = g.act(g.bn(g.conv(cur)))
     for _ in range(depth if depth is not None else rng.randint(1, 4)):
         cur = g.block(cur)
     if opts.get('conv_head') and rng.random() < 0.5:
